@@ -93,7 +93,7 @@ def worker(job):
         cons = load_contracts()
         cls = cons[key]
         v = VF.Verifier(MIDDLEWARE)
-        quick_ms = 1500 if tier == "quick" else 5000
+        quick_ms = 300 if tier == "quick" else 1000
         cli_s = 20 if tier == "quick" else 120
         res = R.verify_contract(v, cls, quick_ms=quick_ms, cli_timeout_s=cli_s,
                                 all_solvers=(tier == "thorough"), seed=seed,
